@@ -103,7 +103,13 @@ def check_calls(run, ix, complex_, rule_ops='C-R2', rule_args='C-R3'):
             if amode not in ('f', 'c'):
                 continue
             mono = MONO.get(g.name)
-            mpfparams = [p_ for p_ in g.params if p_ in ops and p_ not in ('prec', 'rnd')]
+            for p_ in g.params:
+                if p_ in ops and (g.name, p_) in CORNER_OPERANDS:
+                    nops += 1
+                    run.ok(rule_ops, '%s: %s -- operand `%s` is a %s' % (f.qualname, norm(call, 50), p_,
+                                                                         CORNER_OPERANDS[(g.name, p_)]))
+            mpfparams = [p_ for p_ in g.params if p_ in ops and p_ not in ('prec', 'rnd')
+                         and (g.name, p_) not in CORNER_OPERANDS]
             for i, p_ in enumerate(mpfparams):
                 modes = set()
                 for v in ops[p_]:
@@ -125,6 +131,14 @@ def check_calls(run, ix, complex_, rule_ops='C-R2', rule_args='C-R3'):
                 else:
                     run.ok(rule_ops, '%s: %s' % (f.qualname, norm(call, 60)))
     return nops, nargs
+
+
+# (helper, parameter): a CORNER of the input rectangle, picked by the audited corner logic of the caller (which
+# endpoint bounds the function is not decided by the direction rules, see ENDPOINT_LEVEL); the helper bounds the
+# kernel's value AT that corner
+CORNER_OPERANDS = {
+    ('mpc_outward', 'z'): 'corner of the rectangle handed to the complex kernel by mpci_gamma',
+}
 
 
 # functions whose endpoint-level logic (sign cases, monotone regions, corner choice) was read and is
